@@ -940,3 +940,77 @@ func dependsOn(v, src ssa.Value) bool {
 	}
 	return rec(v, 0)
 }
+
+// ---------------------------------------------------------------------------------------------------------------------
+// Stores seen through small helpers: a field update that a refactoring moved into an unexported helper of the same
+// package is treated as happening at the call site, with the helper's parameters replaced by the call's arguments.
+// ---------------------------------------------------------------------------------------------------------------------
+
+type deepStore struct {
+	Field *types.Var
+	Store *ssa.Store
+	Site  ssa.Instruction          // in the top function: the store itself or the call through which it happens
+	subst map[ssa.Value]ssa.Value // helper parameter -> argument at the call site (already translated)
+}
+
+// translate maps a value of the helper's frame to the caller's frame where possible (parameters only).
+func (d deepStore) translate(v ssa.Value) ssa.Value {
+	if v == nil {
+		return nil
+	}
+	if r, ok := d.subst[stripConv(v)]; ok {
+		return r
+	}
+	return v
+}
+
+func isHelperOf(top, callee *ssa.Function) bool {
+	if callee == nil || callee.Blocks == nil || callee == top {
+		return false
+	}
+	obj := callee.Object()
+	if obj == nil || obj.Exported() {
+		return false
+	}
+	return fnTypesPkg(callee) == fnTypesPkg(top)
+}
+
+func deepStoresTo(fn *ssa.Function, f *types.Var) []deepStore {
+	var out []deepStore
+	var rec func(cur *ssa.Function, site ssa.Instruction, subst map[ssa.Value]ssa.Value, depth int)
+	rec = func(cur *ssa.Function, site ssa.Instruction, subst map[ssa.Value]ssa.Value, depth int) {
+		eachInstr(cur, func(in ssa.Instruction) {
+			s := site
+			if s == nil {
+				s = in
+			}
+			if st, ok := in.(*ssa.Store); ok {
+				if fv, _ := fieldAddrOf(st.Addr); fv == f {
+					out = append(out, deepStore{Field: f, Store: st, Site: s, subst: subst})
+				}
+				return
+			}
+			call, ok := in.(*ssa.Call)
+			if !ok || depth >= 2 {
+				return
+			}
+			callee := call.Call.StaticCallee()
+			if !isHelperOf(fn, callee) {
+				return
+			}
+			ns := map[ssa.Value]ssa.Value{}
+			for i, prm := range callee.Params {
+				if i < len(call.Call.Args) {
+					a := call.Call.Args[i]
+					if r, ok := subst[stripConv(a)]; ok {
+						a = r
+					}
+					ns[prm] = a
+				}
+			}
+			rec(callee, s, ns, depth+1)
+		})
+	}
+	rec(fn, nil, map[ssa.Value]ssa.Value{}, 0)
+	return out
+}
